@@ -25,6 +25,9 @@ import (
 type CaseA struct {
 	play.History
 	Cuts [][]int `json:"cuts"` // alternative segmentations (nil entry = one byte per read)
+	// SSLFirst: the stream starts with an SSLRequest (the server has no certificates and
+	// answers 'N'); the startup packet and everything else follow in the same byte stream.
+	SSLFirst bool `json:"ssl_first,omitempty"`
 }
 
 // normTrace strips schedule/transport dependent fields from a trace.
@@ -56,7 +59,12 @@ func RunA(c CaseA) core.Result {
 	res.Labels = append(res.Labels, fmt.Sprintf("segmentations=%d", len(c.Cuts)+1))
 	insideHeader := false
 	// reference: everything delivered in one piece
-	ref := play.RunRaw(c.History, play.RawOptions{AtOnce: true})
+	var prefix []byte
+	if c.SSLFirst {
+		prefix = pgwire.SSLRequest()
+		res.Labels = append(res.Labels, "ssl-request-first")
+	}
+	ref := play.RunRaw(c.History, play.RawOptions{AtOnce: true, Prefix: prefix})
 	if ref.Inconclusive != "" {
 		res.Inconclusive = ref.Inconclusive
 		return res
@@ -71,7 +79,7 @@ func RunA(c CaseA) core.Result {
 			h.Segs, h.Cycle = cut, false
 			insideHeader = insideHeader || cutsInsideHeader(c.History, cut)
 		}
-		alt := play.RunRaw(h, play.RawOptions{AtOnce: true})
+		alt := play.RunRaw(h, play.RawOptions{AtOnce: true, Prefix: prefix})
 		if alt.Inconclusive != "" {
 			res.Inconclusive = alt.Inconclusive
 			return res
